@@ -6,6 +6,7 @@ Python/ceval.c EXTENDED_ARG folding with a 32-bit `int oparg`, Lib/dis.py `_get_
 from __future__ import annotations
 
 import ast
+import copy
 import itertools
 
 import z3
@@ -417,3 +418,81 @@ def h_disjoint(ctx, cfg):
     for a, b in itertools.combinations(ks, 2):
         ctx.prove("disjoint.%s.%s" % (a, b), z3.BoolVal(not (set(T[a]) & set(T[b]))))
     ctx.prove("classified_opcodes_have_arguments", z3.BoolVal(all(o >= T["HAVE_ARGUMENT"] for k in ks for o in T[k])))
+
+
+# --------------------------------------------------------------------------------------------------
+# _parse_bytes as a state machine: one loop iteration on a generic code unit (any number of EXTENDED_ARG prefixes)
+
+def parse_step():
+    def build():
+        src = rewrite.Source.of(B)
+        fn = src.get_def("_parse_bytes")
+        loop = rewrite.find_stmt(fn, lambda n, t: isinstance(n, ast.For), "for i in range(0, len(b), 2)")
+        if ast.unparse(loop.iter) != "range(0, len(b), 2)" or ast.unparse(loop.target) != "i":
+            raise rewrite.BindingError("_parse_bytes loop changed")
+        ret = ast.parse("return (n_args, arg)").body[0]
+        return rewrite.make_function("parse_step", ["b", "i", "n_args", "arg"], list(loop.body) + [ret], B.__name__, "_parse_bytes", "loop body on a generic code unit; loop-carried state (n_args, arg) becomes parameters and the return value")
+    return cached("parse_step", build)
+
+
+def _register_parse_step():
+    for k in (0, 1, 2, 3):
+        def h(ctx, cfg, k=k):
+            frag = parse_step()
+            step = rewrite.compile_defs(B, [copy.deepcopy(frag)], {}, "_parse_bytes:step")["parse_step"]
+            ext = cfg.tables["EXTENDED_ARG"]
+            op = ctx.input("opcode", SymInt.fresh("opcode"))
+            byte = ctx.input("byte", SymInt.fresh("byte"))
+            arg = ctx.input("folded_so_far", SymInt.fresh("arg"))
+            i = ctx.input("unit_offset", SymInt.fresh("i"))
+            n_args = k
+            ctx.assume(z3.And(in_range(op, 0, 255), in_range(byte, 0, 255), i.z >= 2 * k, i.z % 2 == 0), "pre: unit")
+            if k == 0:
+                ctx.assume(arg.z == 0, "loop invariant: state is reset at an instruction start")
+            elif k < 3:
+                ctx.assume(z3.And(arg.z % 256 == 0, arg.z >= 0, arg.z < 256 ** (k + 1)), "loop invariant: k prefixes folded")
+            else:
+                ctx.assume(z3.And(arg.z % 256 == 0, arg.z >= -TWO31, arg.z < TWO31), "loop invariant: three prefixes folded into a C int")
+
+            class Units:
+                def __getitem__(self, kk):
+                    kz = zint(kk)
+                    if ctx.decide(kz == i.z):
+                        return op
+                    if ctx.decide(kz == i.z + 1):
+                        return byte
+                    raise Unsupported("read of another unit")
+            g = step(Units(), i, n_args, arg)
+            yields = []
+            try:
+                while True:
+                    yields.append(next(g))
+            except StopIteration as stop:
+                n2, a2 = stop.value
+            if ctx.decide(op.z == ext):
+                if k == 3:
+                    raise PathAbort()       # WF: CPython never emits more than three prefixes
+                ctx.prove("ext.yields_nothing", z3.BoolVal(not yields))
+                ctx.prove("ext.counts_the_prefix", z3.BoolVal(n2 == k + 1))
+                folded = (arg.z + byte.z) * 256
+                ctx.prove("ext.folds_like_ceval(oparg << 8 with 32-bit wrap)", Z(a2) == z3.If(folded > TWO31 - 1, folded - TWO32, folded))
+                if k + 1 < 3:
+                    ctx.prove("ext.invariant_preserved", z3.And(Z(a2) % 256 == 0, Z(a2) >= 0, Z(a2) < 256 ** (k + 2)))
+                else:
+                    ctx.prove("ext.invariant_preserved", z3.And(Z(a2) % 256 == 0, Z(a2) >= -TWO31, Z(a2) < TWO31))
+            else:
+                ctx.prove("instr.yields_exactly_one_tuple", z3.BoolVal(len(yields) == 1))
+                o, a, n, first, nxt = yields[0]
+                ctx.prove("instr.opcode", Z(o) == op.z)
+                ctx.prove("instr.operand_is_folded_prefixes_plus_byte", Z(a) == arg.z + byte.z)
+                ctx.prove("instr.unit_count", z3.BoolVal(n == k + 1))
+                ctx.prove("instr.first_offset_is_the_first_prefix", Z(first) == i.z - 2 * k)
+                ctx.prove("instr.next_offset", Z(nxt) == i.z + 2)
+                ctx.prove("instr.state_reset", z3.BoolVal(n2 == 0 and a2 == 0))
+        harness("blocks._parse_bytes.loop_step[prefixes=%d]" % k, props=["C01", "C02"], functions=["code_data._blocks._parse_bytes"], configs="all",
+                assumes=["induction over the code units is the meta-step; `for i in range(0, len(b), 2)` visits the units in order", "WF: at most three EXTENDED_ARG prefixes (CPython never emits more)"],
+                notes="one loop iteration on a generic unit at a symbolic offset with %d prefixes folded so far: an EXTENDED_ARG unit yields nothing and folds the byte as ceval does (32-bit wrap), "
+                      "keeping the state invariant; any other unit yields (opcode, folded|byte, units, first offset, next offset) and resets the state - hence for code of any length" % k)(h)
+
+
+_register_parse_step()
